@@ -407,6 +407,17 @@ func perm(n int, f func([]int)) {
 func main() {
 	r := common.Start("C14", "model_checking")
 	r.Replayer("rel", replayCase)
+	r.Replayer("sched", func(raw json.RawMessage) (bool, string) {
+		bin := filepath.Join(common.Root(), "work", "bin", "c14s")
+		out, err := exec.Command(bin, "--replay-case", string(raw)).CombinedOutput()
+		if err != nil {
+			if ee, ok := err.(*exec.ExitError); ok && ee.ExitCode() == 1 {
+				return false, string(out)
+			}
+			common.Machinery("schedule replay: %v %s", err, out)
+		}
+		return true, string(out)
+	})
 	r.MaybeReplay()
 	cps := corpus(r.Thorough())
 	gs := graphs()
